@@ -343,6 +343,15 @@ def check_c02(exe, tier, seed, verdict):
     if r.violated:
         verdict.violation("C02:model", {"tlc": r.out[-3000:]}, "TLC: Parser does not yield Meaning on the bounded universe\n" + r.out[-1500:])
     n, nn, samples = replay_cases(exe, recs, ("g", "k", "v"), verdict, "C02", nt_c02, fp_parser("C02"))
+    # few line shapes, many lines: sections that re-open after other sections, keys below the repeated header
+    rs, recs_s, total_s = export("MC_Parser", {"MaxLines": 6 if tier == "quick" else 7, "Export": "TRUE", "WithBad": "FALSE", "Opt": '"sections"'},
+                                 ["ParseIsMeaning"], sample=1, seed=seed)
+    if rs.violated:
+        verdict.violation("C02:model", {"tlc": rs.out[-3000:]}, "TLC: Parser does not yield Meaning on the sections universe\n" + rs.out[-1500:])
+    n2, nn2, _ = replay_cases(exe, recs_s, ("g", "k", "v"), verdict, "C02", lambda r: r["kinds"].count("header") >= 3, fp_parser("C02s"))
+    n += n2
+    nn += nn2
+    total += total_s
     nfiles = 300 if tier == "quick" else 6000
     files = gen_random_files(seed, nfiles, 14 if tier == "quick" else 40)
     acc = validate_prefix_traces(exe, files, verdict, "C02")
